@@ -41,6 +41,18 @@ class Gen:
         self.auto_split = world["worklist"]["auto_split"]
         self.device = world["device"]
 
+    def vols(self, view, li):
+        """volumes the generator aims at; a state corrupted by the code under test (NaN, inf) must never crash
+        the stub user script: NaN counts as empty, inf as a huge finite volume."""
+        out = {}
+        for w, v in view.volumes(li).items():
+            if v != v:
+                v = 0.0
+            elif v in (math.inf, -math.inf):
+                v = 1e300 if v > 0 else 0.0
+            out[w] = v
+        return out
+
     # ------------------------------------------------------------------ well arguments
     def wells_arg(self, geo, n_max=8, allow_2d=True, distinct=False):
         """-> (encoded wells argument, flat id list in column-major order, extra flags)"""
@@ -181,7 +193,7 @@ class Gen:
         lim = geo.vmin if direction == "rm" else geo.vmax
         warg, flat, flags = self.wells_arg(geo, n_max=rng.choice([3, 8, 8, 24]))
         wells = [geo.real(w) for w in flat]
-        cur = dict(view.volumes(li))
+        cur = dict(self.vols(view, li))
         if direction == "rm" and intent == "ok" and not (isinstance(warg, list) and warg and isinstance(warg[0], list)):
             # a removal (even of 0) from a well that sits below min_volume is refused by the library:
             # steer successful removals away from such wells where possible
@@ -219,7 +231,7 @@ class Gen:
             if worklist_cap:
                 # keep earlier elements emit-able so that the failure is the limit, not the step size
                 vols = [min(v, snap_down(self.wl_max, self.regime)) for v in vols]
-                cur = dict(view.volumes(li))
+                cur = dict(self.vols(view, li))
                 for w, v in zip(wells[:k], vols):
                     cur[w] = cur[w] - v if direction == "rm" else cur[w] + v
             w = wells[k]
@@ -309,8 +321,8 @@ class Gen:
         if rng.random() < 0.6:
             op["part"] = rng.choice(PARTS)
         # volumes: order-independent sufficient condition (adds and removes budgeted separately)
-        cs = dict(view.volumes(si))
-        cd = dict(view.volumes(di)) if di != si else cs
+        cs = dict(self.vols(view, si))
+        cd = dict(self.vols(view, di)) if di != si else cs
         rm_budget = {w: max(cs[w] - gs.vmin, 0.0) for w in set(sw)}
         add_budget = {w: max(gd.vmax - cd[w], 0.0) for w in set(dw)}
         cap = self.wl_max * (rng.choice([0.5, 1, 1, 3, 6]) if self.auto_split else 1.0)
@@ -365,7 +377,7 @@ class Gen:
         gd = self.geos[di]
         col = rng.randrange(gs.cols)
         if intent == "ok":
-            srcv = view.volumes(si)
+            srcv = self.vols(view, si)
             okcols = [c for c in range(gs.cols) if srcv[(0, c)] >= gs.vmin]
             if okcols:
                 col = rng.choice(okcols)
@@ -389,8 +401,8 @@ class Gen:
             dflat = [dwarg[rr][cc] for cc in range(c1 - c0) for rr in range(r1 - r0)]
         dw = [gd.real(w) for w in dflat]
         n = len(dw)
-        cs = view.volumes(si)
-        cd = view.volumes(di)
+        cs = self.vols(view, si)
+        cd = self.vols(view, di)
         src_h = max(cs[(0, col)] - gs.vmin, 0.0)
         cnt = {}
         for w in dw:
@@ -453,7 +465,7 @@ class Gen:
         wells = [geo.real(w) for w in flat]
         direction = "rm" if kind == "evo_aspirate" else "add"
         lim = geo.vmin if direction == "rm" else geo.vmax
-        cur = dict(view.volumes(li))
+        cur = dict(self.vols(view, li))
         cap = snap_down(self.wl_max, self.regime)
         op = {"op": kind, "lab": li, "wells": list(flat) if not (n == 1 and rng.random() < 0.3) else flat[0],
               "pos": [spec["grid"], spec["site"]],
@@ -470,7 +482,7 @@ class Gen:
         else:
             k = rng.randrange(n)
             vols = [min(v, cap) for v in self.fit_seq(direction, cur, wells[:k], lim)]
-            cur = dict(view.volumes(li))
+            cur = dict(self.vols(view, li))
             for w, v in zip(wells[:k], vols):
                 cur[w] = cur[w] - v if direction == "rm" else cur[w] + v
             h = max((cur[wells[k]] - lim) if direction == "rm" else (lim - cur[wells[k]]), 0.0)
